@@ -17,7 +17,7 @@ def gen_case(rng, mode, removal_pattern=None):
     ncell = rng.randint(1, 3) if removal_pattern is None else len(removal_pattern)
     cts = []; cells = []
     for i in range(ncell):
-        cls = rng.choice([0, 0, 0, 1, 2, 3, 4]) if mode == 0 else rng.choice([0, 0, 2, 3])
+        cls = rng.choice([0, 0, 0, 1, 2, 3, 4]) if mode == 0 else rng.choice([0, 0, 2, 3, 4])
         kind, n, f = tissue.random_mesh(rng, kinds=("octa", "icosa", "ico1") if mode == 0 else ("ico2",), size=R, aniso=(mode == 0), noise=0.03 if mode == 0 else 0.0)
         n = tissue.transform(n, None, (i * 12 * R, 0, 0))
         V = abs(tissue.signed_volume(n, f))
@@ -90,7 +90,7 @@ def parse_dump(line):
                 continue
             cid = int(c[0])
             cells[cid] = dict(id=cid, cls=int(c[1]), V=unhx(c[2]), vt=unhx(c[3]), P=unhx(c[4]), g=unhx(c[5]), vdiv=unhx(c[6]),
-                              ready=int(c[7]), below=int(c[8]))
+                              ready=int(c[7]), below=int(c[8]), vmesh=(unhx(c[9]) if len(c) > 9 else None))
             order.append(cid)
         EMPTIED[id(cells)] = emptied
         its.append((k, cells, order))
@@ -196,6 +196,10 @@ def run(ck):
                     continue
                 ct = c["cts"][i]; pc = prev[i]
                 stats["pairs"] += 1
+                # a static cell does not move: the volume it reports after the iteration is the volume its mesh encloses (also after
+                # the refiner or an imposed scaling changed that mesh)
+                if c["mode"] == 1 and cc["cls"] == 4 and cc.get("vmesh") is not None and abs(cc["V"] - cc["vmesh"]) > 1e-9 * cc["vmesh"]:
+                    fails.append((ci, "volume_is_the_enclosed_volume_of_the_current_mesh", "static cell %d iteration %d: reports V = %r, its mesh encloses %r" % (i, k, cc["V"], cc["vmesh"])))
                 if c["mode"] == 1 and cc["below"]:
                     fails.append((ci, "removed_iff_below_min", "cell %d is below its minimum volume after iteration %d and still in the population" % (i, k)))
                 forced = not (cc["cls"] == 1)      # ECM cells are static: no internal forces
